@@ -2,7 +2,7 @@
 Cython kernel compiled from the working-tree .pyx in one of three variants.
 
     plain  .pyx unmodified, gcc -O2
-    bc     every boundscheck(False)/wraparound(False) textually turned on, gcc -O1
+    bc     every boundscheck(False) textually turned on (wraparound left as in the source), gcc -O1
     asan   .pyx unmodified, clang-14 -fsanitize=address,undefined (recover mode)
 
 Compiled objects are cached under /verif/.build keyed by the hash of the
@@ -46,11 +46,11 @@ def _tool_versions():
 
 
 def bc_transform(text):
-    """Turn bounds checking and wraparound checking on everywhere."""
+    """Turn bounds checking on everywhere.  The wraparound setting is left as the source has it: where it is
+    off (as in the production build) a negative index is NOT re-interpreted as counting from the end - it is out of
+    bounds and raises IndexError under the bounds check, which is what the production build would silently read."""
     t = re.sub(r"boundscheck\s*\(\s*False\s*\)", "boundscheck(True)", text)
     t = re.sub(r"boundscheck\s*=\s*False", "boundscheck=True", t)
-    t = re.sub(r"wraparound\s*\(\s*False\s*\)", "wraparound(True)", t)
-    t = re.sub(r"wraparound\s*=\s*False", "wraparound=True", t)
     # `with nogil:` blocks cannot raise IndexError without the GIL in older
     # Cythons; Cython 3 acquires it on error, so nothing else is needed.
     return t
@@ -89,7 +89,7 @@ def compile_kernel(pyx_path, variant):
     cc, cflags, ldflags = FLAGS[variant]
     modname = os.path.splitext(os.path.basename(pyx_path))[0]
     key = hashlib.sha256(
-        b"\0".join([pyx, modname.encode(), variant.encode(), repr((cc, cflags, ldflags)).encode(),
+        b"\0".join([bc_transform(pyx.decode()).encode() if variant == "bc" else pyx, modname.encode(), variant.encode(), repr((cc, cflags, ldflags)).encode(),
                     "\n".join(versions).encode()])).hexdigest()[:24]
     target = os.path.join(CACHE, "%s-%s%s" % (variant, key, EXT_SUFFIX))
     if os.path.exists(target):
